@@ -413,3 +413,20 @@ Qed.
 Lemma overlap_independent g (before : list sx) (sub : sx) (after : list sx) :
   nth (List.length before) (map (obs_sub g) (before ++ sub :: after)%list) bad_case = obs_sub g sub.
 Proof. rewrite map_app. cbn [map]. rewrite app_nth2 by (rewrite map_length; lia). rewrite map_length, Nat.sub_diag. reflexivity. Qed.
+
+(* ---- the dispatch of Error() ---- *)
+(* an error value that has a Code() method and is neither of the two system types is answered as
+   an application error with its OWN code and text -- whatever else it implements (Status(),
+   Cause(), Unwrap()) and whatever those return *)
+Lemma kind_of_app d c : d_cplx d = None -> d_sys d = None -> d_code d = Some c -> kind_of d = PApp c (d_text d).
+Proof. intros A B C. unfold kind_of. now rewrite A, B, C. Qed.
+Lemma kind_of_plain d : d_cplx d = None -> d_sys d = None -> d_code d = None -> kind_of d = PPlain (d_status d) (d_text d).
+Proof. intros A B C. unfold kind_of. now rewrite A, B, C. Qed.
+Lemma kind_of_sys d c : d_cplx d = None -> d_sys d = Some c -> kind_of d = PSys c.
+Proof. intros A B. unfold kind_of. now rewrite A, B. Qed.
+Lemma kind_of_cplx d c m : d_cplx d = Some (c, m) -> kind_of d = PCplx c m.
+Proof. intros A. unfold kind_of. now rewrite A. Qed.
+
+Lemma kind_of_coded d c : d_cplx d = None -> d_sys d = None -> d_code d = Some c ->
+  coded (kind_of d) c [(k_code, JInt c); (k_data, JStr (d_text d))].
+Proof. intros A B C. rewrite (kind_of_app d c A B C). right. exists (d_text d). auto. Qed.
